@@ -70,6 +70,9 @@ ArtVerdict(r, a) ==
             Sev(f, c) \notin {Max2(Sev(b, c), s) : s \in SevOptions(a, c, TRUE) \cup SevOptions(a, c, FALSE)} THEN "SeverityIsMax"
   ELSE IF HasEntry(f, "CheckLowHammingWeight") /\ ~HasEntry(b, "CheckLowHammingWeight") /\ "CheckLowHammingWeight" \in ran
           /\ Res(f, "CheckLowHammingWeight") /\ Sev(f, "CheckLowHammingWeight") = 4 /\ ToSet(f.nf) = {} THEN "DocumentedSeverity"
+  \* ... and a factorisation found by that check carries the check's documented severity, not the "suspicion only" one
+  ELSE IF HasEntry(f, "CheckLowHammingWeight") /\ ~HasEntry(b, "CheckLowHammingWeight") /\ ran = {"CheckLowHammingWeight"}
+          /\ Res(f, "CheckLowHammingWeight") /\ Sev(f, "CheckLowHammingWeight") = 0 /\ ToSet(f.nf) # {} /\ ToSet(b.nf) = {} THEN "DocumentedSeverity"
   \* weak flag and version
   ELSE IF b.weak /\ ~f.weak THEN "WeakNeverCleared"
   ELSE IF f.weak # (b.weak \/ \E c \in ran : Res(f, c) /\ ~(HasEntry(b, c) /\ Res(b, c))) /\ WeakIffPositive(b) THEN "WeakIffPositiveEntry"
